@@ -28,7 +28,7 @@ ASSUMPTIONS = ['(a) bitwise for MD; 1e-8*total for RDA / IG (ARPACK start vector
                'caller-owned objects are the measurement list, its Q / y arrays and projection tuples, and the structural-zero dict']
 PLAN = {
     'quick': dict(cases=120, budget_s=90, case_timeout=600, min_cases=30),
-    'thorough': dict(cases=2500, budget_s=2400, case_timeout=1200, min_cases=500),
+    'thorough': dict(cases=1200, budget_s=1200, case_timeout=1200, min_cases=200),
 }
 
 
